@@ -1,5 +1,5 @@
 SPECIFICATION TSpec
-CONSTANTS MaxNum = 40
+CONSTANTS MaxNum = 400
   Vals = {"a", "b"}
   OBJSTM = FALSE
   SEEKABLE = FALSE
